@@ -23,9 +23,9 @@ A_TIME = [
     "time.Time is modelled in its real layout for values without a monotonic reading (wall = nanosecond, ext = seconds since year 1, loc = nil for UTC or a fixed-offset location); time.Date is exact up to one uninterpreted function days(year, month) (computed natively for concrete arguments); time.Unix normalises nanoseconds through fresh quotient/remainder variables; Unix/UnixNano/UnixMicro/UnixMilli/Nanosecond/IsZero/UTC/Equal/Zone/FixedZone follow their documented contracts",
 ]
 
-CAT = ("type catalogue: 84 struct types (every leaf kind bool/int/int16/int32/int64/float32/float64/string/[]byte x {field, omitempty field, pointer, "
+CAT = ("type catalogue: 94 struct types (every leaf kind bool/int/int16/int32/int64/float32/float64/string/[]byte x {field, omitempty field, pointer, "
        "slice element, map value}, tag variants (json name, '-', omitempty with other options, bq:\"-\", unexported), 25 depth-2 shapes incl. **T, *[]T, *map, "
-       "[]*T, map[string]*T, [][]T, maps of slices/maps/structs, omitempty on pointer/slice/map, null.Int/Bool/Float/String in every position); "
+       "[]*T, map[string]*T, [][]T, maps of slices/maps/structs, omitempty on pointer/slice/map, null.Int/Bool/Float/String in every position; time.Time and null.Time as field, omitempty field and behind a pointer, and - thorough tier - as slice element and map value, built from symbolic RFC 3339 digits with 0/3/9 fraction digits and Z or a numeric offset, their RFC3339Nano text bound to the value because Time.Format is not modelled); "
        "values: all - integer fields and length prefixes in [-8192,8191] (1-2 byte varints; the full width is covered in C17 and the fit clause of C03), "
        "int16 and floats full width incl. NaN/Inf/-0; strings/bytes of 0..2 arbitrary bytes (non-UTF-8 included); collections 0..2 elements, nested collections 0..1 "
        "(thorough: 0..3 / 0..2), nil and empty both; map keys 1 byte, distinct; nil pointers at every level; loop unwinding 64")
@@ -34,19 +34,24 @@ P = {}
 
 P["C01"] = {
     "common": {"validate": 6, "ignore_kinds": ["alloc", "unwind"], "runs": [
+        {"pattern": "verifHarness_C0102_[^x]", "label_filter": "C01:"},
+        {"pattern": "verifHarness_C01_(e2e|sequence)", "label_filter": "C01:"}]},
+    "thorough": {"validate": 24, "runs": [
         {"pattern": "verifHarness_C0102_", "label_filter": "C01:"},
         {"pattern": "verifHarness_C01_(e2e|sequence)", "label_filter": "C01:"}]},
-    "thorough": {"validate": 24},
     "bounds": CAT + "; codec level: one record per run (write, then read back into a zeroed target); end to end (C01_e2e): NewEncoderFor -> 1..3 (thorough 1..4) Encode/Flush calls in every order -> final Flush -> ReadFile, compression in {null, deflate, snappy}, block size in {0, 4, 7, 100} bytes, records {int64, 1-byte string}",
-    "outside": "deeper nesting, longer collections and strings; time.Time / null.Time fields (text form decided by Time.Format, see C18); real deflate/snappy bytes; allocation size and loop-bound findings raised while reading back are C06's subject",
+    "outside": "deeper nesting, longer collections and strings; that Time.Format emits the bound text (real Format runs in every native replay); real deflate/snappy bytes; allocation size and loop-bound findings raised while reading back are C06's subject",
     "assumptions": A_CORE + A_FILE,
 }
 P["C02"] = {
     "common": {"validate": 6, "ignore_kinds": ["alloc", "unwind"], "runs": [
+        {"pattern": "verifHarness_C0102_[^x]", "label_filter": "C02:"},
+        {"pattern": "verifHarness_C09_history", "label_filter": "C09:"},
+        {"pattern": "verifHarness_C02_container", "label_filter": "C02:"}]},
+    "thorough": {"validate": 24, "runs": [
         {"pattern": "verifHarness_C0102_", "label_filter": "C02:"},
         {"pattern": "verifHarness_C09_history", "label_filter": "C09:"},
         {"pattern": "verifHarness_C02_container", "label_filter": "C02:"}]},
-    "thorough": {"validate": 24},
     "bounds": CAT + "; oracle: reference Avro decoder written from the 1.8 specification, driven only by the Schema value the library generated and the bytes written; null-branch rule via the expected datum (nil pointer / invalid null.* / zero omitempty <=> null branch); container: header (magic, metadata map with exactly avro.schema and avro.codec, zero terminator, sync) and blocks (count, byte size, payload, sync) parsed by a reference container parser, all three codecs, histories of 1..3 encode/flush calls",
     "outside": "JSON text of the embedded schema (C14); real compressed bytes; an empty non-nil map under omitempty may be written as either branch",
     "assumptions": A_CORE + A_FILE,
@@ -179,10 +184,12 @@ P["C15"] = {
 P["C20"] = {
     "common": {"validate": 6, "ignore_kinds": ["alloc", "unwind"], "runs": [
         {"pattern": "verifHarness_C20_", "label_filter": "C20:"},
-        {"pattern": "verifHarness_C0102_null(leaf|omit|slice|map)", "label_filter": "C0[12]:"}]},
-    "thorough": {"validate": 16},
+        {"pattern": "verifHarness_C0102_(null(leaf|omit|slice|map)|time(leaf|omit))", "label_filter": "C0[12]:"}]},
+    "thorough": {"validate": 16, "runs": [
+        {"pattern": "verifHarness_C20_", "label_filter": "C20:"},
+        {"pattern": "verifHarness_C0102_(null(leaf|omit|slice|map)|time(leaf|omit)|x_time)", "label_filter": "C0[12]:"}]},
     "bounds": "three user-defined custom types (a struct, a named int64, a named []byte) registered through the real Register / RegisterSchema with codecs whose wire form starts with a marker byte; positions: field, pointer, slice element, map value, omitempty field, field of a nested struct and of a pointer-to-struct, each next to a structurally identical UNREGISTERED twin type; both registration orders (marker A then B, B then A: the latest must win); asserted for all values (full-width ints, byte strings 0..2): SchemaForType emits exactly the registered schema at the custom positions and the default mapping for the twin; the reference decoder finds the latest marker encoding exactly at the custom-typed values and the default encoding elsewhere; values round-trip; skipping consumes everything. The library's own registrations (null.Int/Bool/Float/String) are run in the positions field, omitempty, slice element and map value (catalogue harnesses shared with C01/C02)",
-    "outside": "time.Time / null.Time positions (their text form goes through Time.Format, see C18); **T (C01 known finding)",
+    "outside": "**T and pointers to zero / invalid values (C01 known findings)",
     "assumptions": A_CORE,
 }
 
